@@ -348,6 +348,10 @@ def log_case_coq(c, r, wiring, pnu=False):
         'None' if c['times'] is None else '(Some %s)' % ql(c['times']), natl(new_ids), ql(sizes),
         events_coq(r['events'], ids), 'None' if c.get('Ne') is None else '(Some %s)' % q(c['Ne']), natl(c['ns']))
     logged = '[' + '; '.join(lcall_coq(x, ids) for x in r['calls']) + ']'
+    # the same run with the identity wiring, and the ids of the frozen branches (for the conclusion of frozen_flags_wired)
+    tmin = min(times)
+    ids['__std__'] = ('front std_wirings' + model[len('front ' + wiring_coq(wiring)):],
+                      natl([ids[frozen_name(s, t)] for s, t in zip(sampled, times) if t - tmin > 0]))
     return '(%s, %s)' % (model, logged), ids
 
 # ---------------------------------------------------------------------------------------------------------------
@@ -618,11 +622,12 @@ def native_shapes(rng):
                  {'name': 'A', 'ancestors': ['anc'], 'epochs': [{'end_time': 0, 'start_size': N1a, 'end_size': N1b}]},
                  {'name': 'B', 'ancestors': ['anc'], 'epochs': [{'end_time': 0, 'start_size': N2a, 'end_size': N2b}]}],
                 [{'source': 'B', 'dest': 'A', 'rate': m12}, {'source': 'A', 'dest': 'B', 'rate': m21}])
-    ops = [['phi_1D', 1.0], ['split', 1],
+    # the ancestral population is at equilibrium for ITS size: phi_1D(nu = Nr / Ne) when Ne is given explicitly
+    ops = [['phi_1D', Nr / Nex], ['split', 1],
            ['integrate', T2 / 2 / Nex, [['e', N1a / Nex, N1b / Nex], ['e', N2a / Nex, N2b / Nex]],
             [[0, 2 * Nex * m12], [2 * Nex * m21, 0]], None]]
-    # phi_1D in the importer is the equilibrium of the reference size, whatever the root size: the root epoch is infinite
-    out.append(('IM_exp', g, ['A', 'B'], [2, 3], Nex, 14, ops if Nr == Nex else None))
+    out.append(('IM_exp', g, ['A', 'B'], [2, 3], Nex, 14, ops))
+    ops = [['phi_1D', 1.0]] + ops[1:]
     g2 = builder([{'name': 'anc', 'epochs': [{'end_time': T2, 'start_size': Nex}]}] + g['demes'][1:], g['migrations'])
     out.append(('IM_exp_rootNe', g2, ['A', 'B'], [2, 3], None, 14, ops))
     # 3. pulse admixture
@@ -809,7 +814,7 @@ def run(ctx):
 def log_phase(ctx, cases, wiring, pnu, bad_frozen):
     res = impl_chunks('log', [strip(c) for c in cases])
     byid = {r['id']: r for r in res}
-    exprs = []; refusals = []; meta = {}
+    exprs = []; refusals = []; meta = {}; frz_exprs = []
     infos = {}
     flagged = {}          # case id -> key of a known-class deviation already attributed
     for c in cases:
@@ -871,8 +876,15 @@ def log_phase(ctx, cases, wiring, pnu, bad_frozen):
                           no_input=True, broken='call-log correspondence')
             continue
         exprs.append((c['id'], ex)); meta[c['id']] = (c, r)
+        if info['ancient']:
+            frz_exprs.append((c['id'], '(%s, %s)' % ids['__std__']))
     results = ctx.coq_cases('log', HEADER, exprs, '(check_prog %s)' % q(TOL), 'tol 1e-12 relative per argument', shard=ctx.pick(3, 12), timeout=1500)
     ref_results = ctx.coq_cases('refuse', HEADER, refusals, 'check_refusal', 'exact', shard=4) if refusals else {}
+    if frz_exprs:
+        fres = ctx.coq_cases('frozen', HEADER, frz_exprs, '(fun c => (frozen_ok (snd c) (fst c), 0%Z))', 'exact', shard=ctx.pick(3, 12))
+        for cid, _ in frz_exprs:
+            ok = cid in fres and fres[cid][0]
+            ctx.obligation('log case %d: conclusion of frozen_flags_wired on the model program (identity wiring, Q instance)' % cid, ok, 'correspondence')
     mismatch = {}
     for cid, ex in exprs:
         c, r = meta[cid]
